@@ -3273,6 +3273,7 @@ static Node *new_inc_dec(Node *node, Token *tok, int addend) {
 }
 
 // postfix = "(" type-name ")" "{" initializer-list "}"
+//           postfix-tail*
 //         = ident "(" func-args ")" postfix-tail*
 //         | primary postfix-tail*
 //
@@ -3283,6 +3284,8 @@ static Node *new_inc_dec(Node *node, Token *tok, int addend) {
 //              | "++"
 //              | "--"
 static Node *postfix(Token **rest, Token *tok) {
+  Node *node;
+
   if (equal(tok, "(") && is_typename(tok->next)) {
     // Compound literal
     Token *start = tok;
@@ -3291,18 +3294,20 @@ static Node *postfix(Token **rest, Token *tok) {
 
     if (scope->next == NULL) {
       Obj *var = new_anon_gvar(ty);
-      gvar_initializer(rest, tok, var);
-      return new_var_node(var, start);
+      gvar_initializer(&tok, tok, var);
+      node = new_var_node(var, start);
+    } else {
+      Obj *var = new_lvar("", ty);
+      Node *lhs = lvar_initializer(&tok, tok, var);
+      Node *rhs = new_var_node(var, tok);
+      node = new_binary(ND_COMMA, lhs, rhs, start);
     }
-
-    Obj *var = new_lvar("", ty);
-    Node *lhs = lvar_initializer(rest, tok, var);
-    Node *rhs = new_var_node(var, tok);
-    return new_binary(ND_COMMA, lhs, rhs, start);
+  } else {
+    node = primary(&tok, tok);
   }
 
-  Node *node = primary(&tok, tok);
-
+  // A compound literal is a postfix expression like any other:
+  // (struct T){1, 2}.x and (int[]){1, 2, 3}[i] are valid.
   for (;;) {
     if (equal(tok, "(")) {
       node = funcall(&tok, tok->next, node);
